@@ -15,3 +15,4 @@ def run(prog, rep):
     r_hdr.run_ctor(prog, rep, rule)
     from ..rules import r_close as _rc10
     _rc10.run_hid_owner(prog, rep)
+    r_ver.run_width(prog, rep)
